@@ -19,13 +19,14 @@ CHECK_DEADLOCK FALSE
 """
 
 
-def record(ctx, name, runs, seed, cut=False, cutstep=7, timeout=1800):
+def record(ctx, name, runs, seed, cut=False, cutstep=7, timeout=1800, extra=()):
     binp = ctx.go_build("mtraffic")
     wd = ctx.scratch("trace-" + name)
     trace = os.path.join(wd, "trace.ndjson")
     cmd = [binp, "-out", trace, "-runs", str(runs), "-seed", str(seed)]
     if cut:
         cmd += ["-cut", "-cutstep", str(cutstep)]
+    cmd += list(extra)
     p = ctx.run(cmd, timeout=timeout)
     if p.returncode != 0:
         raise Broken("mtraffic failed: %s" % p.stderr[-2000:])
